@@ -232,13 +232,25 @@ def refuse_rule(rep, u, vals, opt):
                                            "accepted: it_value {0,0} disarms the timerfd, the call returns 0 and the event never fires")
     (rep.proved if rng else rep.violated)("R-REFUSE", fv, "proc-ident-range", "tpt_ev_validate: a process identifier that does not fit pid_t is refused", "" if rng else
                                           "accepted: 2^32 + pid is cut to pid_t and another process is watched")
+    # a seconds value that is no time_t: the later timerfd_settime failure destroys the live timer, so it is refused here
+    secs = False
+    for bid in fv.reachable_blocks():
+        cnd = fv.blocks[bid].cond
+        if cnd is None or not leaves_to_error(bid):
+            continue
+        for y, _ in _walk(cnd):
+            if y.get("k") == "bin" and y["op"] in ("<", ">", "<=", ">=") and any(z.get("k") == "mem" and z["f"] == "data" for z, _ in _walk(y)) and \
+                    any((const_val(z) or 0) in (0x7fffffffffffffff, 0x8000000000000000) for z, _ in _walk(y)):
+                secs = True
+    (rep.proved if secs else rep.violated)("R-REFUSE", fv, "timer-seconds-range", "tpt_ev_validate: a timer value in seconds that does not fit time_t is refused", "" if secs else
+                                           "accepted: enable(TP_FF_T_SEC, 2^63) reaches timerfd_settime with a negative tv_sec, its EINVAL path closes the running timer")
     want = vals["TP_F_ONESHOT"] | vals["TP_F_DISPATCH"] | (opt.get("TP_F_EDGE") or 0) | (opt.get("TP_F_EXCLUSIVE") or 0)
     ok = vals["TP_F_S_MASK"] == want
     (rep.proved if ok else rep.violated)("R-REFUSE", fv, "flag-mask-exact", "the settable-flag mask contains exactly the flags that exist", "TP_F_S_MASK = 0x%x" % want if ok else
                                          "TP_F_S_MASK = 0x%x but the defined flags are 0x%x: bits without a meaning are accepted and silently dropped" % (vals["TP_F_S_MASK"], want))
     # the low-water mark handed to setsockopt is an int for the kernel
     fp = tp.need(u, "tpt_ev_post")
-    n = 3
+    n = 4
     for pos, root, x, ps in fp.nodes():
         if x.get("k") == "bin" and x["op"] == "=" and core.is_ref(core.strip_casts(x["x"]), name="lowat"):
             n += 1
@@ -375,6 +387,36 @@ def refused_add_rule(rep, u):
                 ok = False
             (rep.proved if ok else rep.violated)("R-OUTDEF", fn, "refused-add-keeps-thread", desc, "the refusing exit restores the previous thread" if ok else
                                                  "a refusing exit of the validation returns without putting the previous thread back")
+    return n
+
+
+def live_record_rule(rep, u):
+    """a record that is live on one thread (tpdata != 0) is not moved to another thread by an add: the registration would stay
+    in the first thread's epoll set, both threads call back, and delete only reaches the second"""
+    n = 0
+    for fn in u.function_list:
+        if fn.relfile() != tp.TP_C or not fn.has_cfg or not fn.name.startswith("tpt_ev_add"):
+            continue
+        for pos, root, x, ps in fn.nodes():
+            if not (x.get("k") == "bin" and x["op"] == "=" and core.strip_casts(x["x"]).get("k") == "mem" and core.strip_casts(x["x"])["f"] == "tpt"):
+                continue
+            src = core.strip_casts(x["y"])
+            if not (src.get("k") == "ref" and src.get("dk") == "parm"):
+                continue
+            n += 1
+            rep.functions.add(fn.name)
+            ok = False
+            for bid in fn.reachable_blocks():
+                cnd = fn.blocks[bid].cond
+                # (part of a short-circuit chain: the test need not dominate, it must lie before the store and have a leaving edge)
+                if cnd is None or bid == pos[0] or pos[0] not in fn.reach_from([bid]):
+                    continue
+                if any(y.get("k") == "mem" and y["f"] == "tpdata" for y, _ in _walk(cnd)) and any(pos[0] not in fn.reach_from([s_]) for s_ in fn.blocks[bid].rsucc()):
+                    ok = True
+            desc = "%s: the thread of a record that is live (tpdata != 0) on another thread is not overwritten" % fn.name
+            (rep.proved if ok else rep.violated)("R-OUTDEF", fn, "live-record-stays", desc, "" if ok else
+                                                 "add(t0, READ) then add(t1, READ) on the same record succeeds: it is in both epoll sets, both threads call back, del() removes "
+                                                 "only t1's entry and t0 spins on the deleted record", x.get("ln"))
     return n
 
 
